@@ -274,14 +274,17 @@ func runC18(w *World, c *Check) {
 			}
 		}
 		good := len(st) > 0 && len(hd) > 0 && len(trues) > 0 && rfa.PathAvoiding(st, trues) == nil && rfa.PathAvoiding(hd, trues) == nil
+		if !good {
+			// the single-expression form: return status == 401 && header == Negotiate
+			good = rfa.TrueImplies(EqPass("401", `resp\.StatusCode`)) && rfa.TrueImplies(EqPass(`"Negotiate"`, `net/http\.\(Header\)\.Get\(resp\.Header, "WWW-Authenticate"\)`))
+		}
 		c.Decide(good, "C18.header", FuncKey(fn), "challenge", w.Pos(fn.Pos()), "a challenge is status 401 with WWW-Authenticate: Negotiate", "true is returned without both tests")
 	}
 	// redirect drops the Authorization header of the target
-	del := fa.Calls(`net/http\.\(Header\)\.Del`)
 	okDel := false
-	for _, d := range del {
-		a := fa.CallArgs(d)
-		if len(a) == 2 && a[1] == `"Authorization"` && strings.Contains(a[0], "reqTarget.Header") {
+	for _, dc := range fa.CallsDeep(`net/http\.\(Header\)\.Del`) {
+		a := dc.fa.CallArgs(dc.ci)
+		if len(a) == 2 && a[1] == `"Authorization"` && strings.Contains(a[0], "reqTarget") && strings.HasSuffix(a[0], ".Header") {
 			okDel = true
 		}
 	}
